@@ -142,6 +142,9 @@ pub struct NewNode {
     pub children: Vec<NewNode>,
     pub self_ref_prop: bool,
     pub other_thread: bool,
+    /// a Bool property literally named Archivable (Roblox's own Clone() skips such descendants; WeakDom's clone
+    /// operations are documented as copying the subtree and nothing else)
+    pub archivable: Option<bool>,
     pub ctor: u8,
     /// build with the referent that this live node of ANOTHER DOM carries (mirrored trees)
     pub mirror_of: Option<usize>,
@@ -187,6 +190,8 @@ pub struct Cfg {
     pub steps: usize,
     pub max_live: usize,
     pub uid_pool: usize,
+    /// first pool entry used (so that small pools can sit on the unusual ids too)
+    pub uid_base: usize,
     pub rich_props: bool,
     pub max_insert: usize,
     /// 0 = none; 1 = "wide": two folders of 65-130 children, every child of the first pointing at a child of the second;
@@ -194,7 +199,10 @@ pub struct Cfg {
     pub scenario: u8,
 }
 
-const UID_POOL: [(u32, u32, i64); 8] = [(0, 0, 0), (1, 1, 1), (2, 2, 2), (3, 3, 3), (0x1000_0000, 5, 9), (0x6000_0000, 5, 9), (0xB000_0000, 5, 9), (0x9000_0000, 5, 9)];
+// (index, time, random). Beyond the small values: indices half the number range apart, and ids that share one NEGATIVE
+// random part while index and time differ (equality and hashing must look at all three fields)
+const UID_POOL: [(u32, u32, i64); 12] = [(0, 0, 0), (1, 1, 1), (2, 2, 2), (3, 3, 3), (0x1000_0000, 5, 9), (0x6000_0000, 5, 9), (0xB000_0000, 5, 9), (0x9000_0000, 5, 9),
+    (1, 0x0100_0000, -0x1234_5678_9abc_def0), (2, 0x0200_0000, -0x1234_5678_9abc_def0), (2, 0x0100_0000, -0x1234_5678_9abc_def0), (1, 0x0100_0000, i64::MIN)];
 
 // ---------------------------------------------------------------- execution state
 
@@ -297,6 +305,10 @@ impl World {
                 b.add_property("Obj", v);
             }
         }
+        if let Some(av) = n.archivable {
+            b.add_property("Archivable", Variant::Bool(av));
+            props.insert("Archivable".to_owned(), MV::V(canon::value(&Variant::Bool(av), &raw)));
+        }
         if n.mistyped_uid && !props.contains_key("UniqueId") {
             b.add_property("UniqueId", Variant::String("not-an-id".into()));
             props.insert("UniqueId".to_owned(), MV::V(canon::value(&Variant::String("not-an-id".into()), &raw)));
@@ -324,7 +336,7 @@ pub struct InstanceBuilderInfo {
 }
 
 fn uid_of(i: usize) -> UniqueId {
-    let (a, b, c) = UID_POOL[i % 8];
+    let (a, b, c) = UID_POOL[i % 12];
     UniqueId::new(a, b, c)
 }
 
@@ -334,10 +346,10 @@ fn gen_newnode(ch: &mut dyn Chooser, w: &World, cfg: &Cfg, depth: usize, budget:
     let mut props = vec![];
     let mut shadowed_uid = None;
     if cfg.uid_pool > 0 && ch.choose(3) != 0 {
-        props.push(("UniqueId".to_owned(), MV::Uid(uid_of(ch.choose(cfg.uid_pool)))));
+        props.push(("UniqueId".to_owned(), MV::Uid(uid_of(cfg.uid_base + ch.choose(cfg.uid_pool)))));
         // builders may carry a key twice (with_properties(template) then with_property): the last entry is the value
         if cfg.rich_props && ch.choose(5) == 0 {
-            shadowed_uid = Some(uid_of(ch.choose(cfg.uid_pool)));
+            shadowed_uid = Some(uid_of(cfg.uid_base + ch.choose(cfg.uid_pool)));
         }
     }
     let mut self_ref = false;
@@ -378,7 +390,8 @@ fn gen_newnode(ch: &mut dyn Chooser, w: &World, cfg: &Cfg, depth: usize, budget:
     let content_obj = if rich && !live_ids.is_empty() && ch.choose(8) == 0 { Some(live_ids[ch.choose(live_ids.len())]) } else { None };
     let mistyped_uid = rich && ch.choose(30) == 0;
     let mirror_of = if w.mirror && depth == 0 && !live_ids.is_empty() && ch.choose(4) == 0 { Some(live_ids[ch.choose(live_ids.len())]) } else { None };
-    NewNode { class, name, shadowed_uid, props, children, self_ref_prop: self_ref, other_thread, ctor, mirror_of, name_prop, content_obj, mistyped_uid }
+    let archivable = if rich && ch.choose(6) == 0 { Some(ch.choose(3) == 0) } else { None };
+    NewNode { class, name, shadowed_uid, props, children, self_ref_prop: self_ref, other_thread, archivable, ctor, mirror_of, name_prop, content_obj, mistyped_uid }
 }
 
 fn gen_op(ch: &mut dyn Chooser, w: &World, cfg: &Cfg) -> Option<Op> {
@@ -527,7 +540,7 @@ fn all_ops(w: &World, cfg: &Cfg) -> Vec<Op> {
                     ops.push(Op::Insert {
                         dom: w.m.nodes[p].dom,
                         parent: *p,
-                        sub: NewNode { class: "Folder".into(), name: "n".into(), shadowed_uid: None, props, children: vec![], self_ref_prop: false, other_thread: false, ctor: 0, mirror_of: None, name_prop: None, content_obj: None, mistyped_uid: false },
+                        sub: NewNode { class: "Folder".into(), name: "n".into(), shadowed_uid: None, props, children: vec![], self_ref_prop: false, other_thread: false, archivable: None, ctor: 0, mirror_of: None, name_prop: None, content_obj: None, mistyped_uid: false },
                     });
                 }
             }
@@ -1183,7 +1196,7 @@ pub fn run_history(ch: &mut dyn Chooser, cfg: &Cfg, rep: &mut Report, want: &str
     let mut moved_with_siblings = false;
     // scripted opening of the size scenarios: ordinary operations, applied and checked like every other step
     let mut prelude_stage = 0usize;
-    let leaf = |name: &str, props: Vec<(String, MV)>| NewNode { class: "ObjectValue".into(), name: name.into(), shadowed_uid: None, props, children: vec![], self_ref_prop: false, other_thread: false, ctor: 0, mirror_of: None, name_prop: None, content_obj: None, mistyped_uid: false };
+    let leaf = |name: &str, props: Vec<(String, MV)>| NewNode { class: "ObjectValue".into(), name: name.into(), shadowed_uid: None, props, children: vec![], self_ref_prop: false, other_thread: false, archivable: None, ctor: 0, mirror_of: None, name_prop: None, content_obj: None, mistyped_uid: false };
     // initial forest through inserts (part of the history)
     let total_steps = cfg.init_nodes + cfg.steps + if cfg.scenario != 0 { 6 } else { 0 };
     for step in 0..total_steps {
@@ -1191,14 +1204,14 @@ pub fn run_history(ch: &mut dyn Chooser, cfg: &Cfg, rep: &mut Report, want: &str
             (1, 0) => {
                 let wcount = [65usize, 70, 130][ch.choose(3)];
                 let kids = (0..wcount).map(|i| leaf(&format!("b{}", i), vec![])).collect();
-                Some(Op::Insert { dom: 0, parent: w.m.roots[0], sub: NewNode { class: "Folder".into(), name: "B".into(), shadowed_uid: None, props: vec![], children: kids, self_ref_prop: false, other_thread: false, ctor: 0, mirror_of: None, name_prop: None, content_obj: None, mistyped_uid: false } })
+                Some(Op::Insert { dom: 0, parent: w.m.roots[0], sub: NewNode { class: "Folder".into(), name: "B".into(), shadowed_uid: None, props: vec![], children: kids, self_ref_prop: false, other_thread: false, archivable: None, ctor: 0, mirror_of: None, name_prop: None, content_obj: None, mistyped_uid: false } })
             }
             (1, 1) => {
                 // B was the last insert: its model id and its children's ids are the last ones handed out
                 let b = *w.m.nodes.iter().rev().find(|(_, n)| n.name == "B").map(|(i, _)| i).unwrap();
                 let targets = w.m.nodes[&b].children.clone();
                 let kids = targets.iter().enumerate().map(|(i, t)| leaf(&format!("a{}", i), vec![("Value".to_owned(), MV::Ref(MRef::Node(*t)))])).collect();
-                Some(Op::Insert { dom: 0, parent: w.m.roots[0], sub: NewNode { class: "Folder".into(), name: "A".into(), shadowed_uid: None, props: vec![], children: kids, self_ref_prop: false, other_thread: false, ctor: 0, mirror_of: None, name_prop: None, content_obj: None, mistyped_uid: false } })
+                Some(Op::Insert { dom: 0, parent: w.m.roots[0], sub: NewNode { class: "Folder".into(), name: "A".into(), shadowed_uid: None, props: vec![], children: kids, self_ref_prop: false, other_thread: false, archivable: None, ctor: 0, mirror_of: None, name_prop: None, content_obj: None, mistyped_uid: false } })
             }
             // clone the folder whose children all point outside it (65-130 distinct outward Refs in ONE clone call),
             // within the DOM and, after the targets were moved to the other DOM, into that DOM
@@ -1210,7 +1223,7 @@ pub fn run_history(ch: &mut dyn Chooser, cfg: &Cfg, rep: &mut Report, want: &str
             (1, 4) if cfg.ndoms >= 2 => w.m.nodes.iter().find(|(_, n)| n.name == "A" && n.children.len() >= 65 && n.dom == 0 && n.parent.is_some()).map(|(i, _)| Op::CloneInto { x: *i, dest: 1 }),
             (2, 0) => {
                 let kids = (0..460).map(|i| leaf(&format!("m{}", i), vec![("UniqueId".to_owned(), MV::Uid(uid_of(i % 4)))])).collect();
-                Some(Op::Insert { dom: 0, parent: w.m.roots[0], sub: NewNode { class: "Folder".into(), name: "M".into(), shadowed_uid: None, props: vec![], children: kids, self_ref_prop: false, other_thread: false, ctor: 0, mirror_of: None, name_prop: None, content_obj: None, mistyped_uid: false } })
+                Some(Op::Insert { dom: 0, parent: w.m.roots[0], sub: NewNode { class: "Folder".into(), name: "M".into(), shadowed_uid: None, props: vec![], children: kids, self_ref_prop: false, other_thread: false, archivable: None, ctor: 0, mirror_of: None, name_prop: None, content_obj: None, mistyped_uid: false } })
             }
             (2, 1) => {
                 let mm = *w.m.nodes.iter().rev().find(|(_, n)| n.name == "M").map(|(i, _)| i).unwrap();
@@ -1346,6 +1359,7 @@ pub fn main(a: &Args) {
             steps: a.usize("steps", 2),
             max_live: 12,
             uid_pool: a.usize("uids", 1),
+            uid_base: a.usize("uidbase", 0),
             rich_props: a.str("rich", "0") == "1",
             max_insert: 1, scenario: 0,
         };
@@ -1410,7 +1424,8 @@ pub fn main(a: &Args) {
                 init_nodes: rng.below(6),
                 steps: if big { 400 } else { 20 + rng.below(120) },
                 max_live: if big { 600 } else { 8 + rng.below(28) },
-                uid_pool: if rng.chance(1, 4) { 0 } else if rng.chance(1, 3) { 8 } else { 2 + rng.below(3) },
+                uid_pool: if rng.chance(1, 4) { 0 } else if rng.chance(1, 3) { 12 } else { 2 + rng.below(3) },
+                uid_base: if rng.chance(1, 3) { 8 } else { 0 },
                 rich_props: true,
                 max_insert: 1 + rng.below(6),
                 scenario: 0,
